@@ -26,11 +26,16 @@ def main():
     ap.add_argument("--tier", default="quick")
     ap.add_argument("--props")
     ap.add_argument("--base", default="HEAD")
+    ap.add_argument("--tests", action="store_true", help="also run the pinned baseline on the patched tree")
+    ap.add_argument("--record", action="store_true", help="write the outcome into <dir>/meta.json under 'verified'")
     a = ap.parse_args()
     d = Path(a.dir).resolve()
     meta = json.loads((d / "meta.json").read_text())
     props = a.props.split(",") if a.props else [meta["property"]]
-    wt = Path(f"/tmp/seedtest-{os.getpid()}")
+    # demonstrations assert the checkout path they were written against: /tmp/mut-<property id>
+    wt = Path(meta.get("worktree") or f"/tmp/mut-{meta['property'].lower()}")
+    if wt.exists():
+        sh(f"git -C /repo worktree remove --force {wt}")
     sh(f"git -C /repo worktree add -q --detach {wt} {a.base}")
     try:
         env = {**os.environ, "PYTHONPATH": str(wt)}
@@ -42,6 +47,13 @@ def main():
             return 2
         r1 = sh(f"cd {wt} && /venv/bin/python {demo}", env=env)
         print(f"demo without patch: rc={r0.returncode}; with patch: rc={r1.returncode}")
+        record = {"base": sh(f"git -C {wt} rev-parse --short HEAD").stdout.strip(),
+                  "demo_rc_unpatched": r0.returncode, "demo_rc_patched": r1.returncode, "checks": {}}
+        if a.tests:
+            t = sh(f"{VERIF}/tools/baseline.sh {wt}")
+            line = [l for l in t.stdout.splitlines() if l.startswith("baseline:")]
+            print("tests with patch:", line[-1] if line else t.stdout[-300:])
+            record["baseline_with_patch"] = line[-1] if line else "?"
         ok = True
         for p in props:
             r = sh(f"cd {VERIF} && VERIF_REPO={wt} timeout 1500 ./check {p} --tier {a.tier}")
@@ -51,7 +63,14 @@ def main():
             for l in viol[:3] + lines[-1:]:
                 print("   ", l)
             ok = ok and r.returncode == 1 and bool(viol)
+            record["checks"][p] = {"tier": a.tier, "rc": r.returncode, "violation_lines": len(viol),
+                                   "no_failing_input_found": any("no-failing-input-found" in l for l in viol),
+                                   "summary": lines[-1] if lines else ""}
         print("CAUGHT" if ok else "MISSED")
+        record["caught"] = ok
+        if a.record:
+            meta["verified"] = record
+            (d / "meta.json").write_text(json.dumps(meta, indent=1) + "\n")
         return 0 if ok else 1
     finally:
         sh(f"git -C /repo worktree remove --force {wt}")
